@@ -2,5 +2,8 @@ import IrVerif.Props.C16
 open IrVerif.SymExpr
 #print axioms IrVerif.SymExpr.C16_parser_sound_complete
 #print axioms IrVerif.SymExpr.C16_print_parse
+#print axioms IrVerif.SymExpr.C16_print_parse_text
+#print axioms IrVerif.SymExpr.C16_fast_path
+#print axioms IrVerif.SymExpr.C16_tokenize_render
 #print axioms IrVerif.SymExpr.C16_partial
 #print axioms IrVerif.SymExpr.C16_int_ops
